@@ -32,3 +32,13 @@ def core_check(prop, tier, seed, replay):
 CHECKS = {}
 for _p in ("C01", "C02", "C03", "C09", "C10", "C11", "C13", "C19"):
     CHECKS[_p] = core_check
+
+# families living in their own files: vlib/fam_<name>.py exporting FAM, PROPS and check(prop, tier, seed, replay)
+import glob as _glob
+import importlib as _importlib
+import os as _os
+
+for _f in sorted(_glob.glob(_os.path.join(_os.path.dirname(__file__), "fam_*.py"))):
+    _m = _importlib.import_module("vlib." + _os.path.basename(_f)[:-3])
+    for _p in getattr(_m, "PROPS", []):
+        CHECKS[_p] = _m.check
